@@ -20,6 +20,7 @@ func uncoveredFields(m sdk.Msg) (out []string) {
 		return nil
 	}
 	base := lm.GetSignBytes()
+	baseCopy := append([]byte(nil), base...)
 	rv := reflect.ValueOf(m)
 	if rv.Kind() != reflect.Ptr || rv.Elem().Kind() != reflect.Struct {
 		return nil
@@ -57,6 +58,11 @@ func uncoveredFields(m sdk.Msg) (out []string) {
 			defer func() { recover() }()
 			vb = cp.Interface().(interface{ GetSignBytes() []byte }).GetSignBytes()
 		}()
+		if !bytes.Equal(base, baseCopy) {
+			// the bytes returned for m changed when another message's sign bytes were computed
+			out = append(out, "<returned slice is overwritten by the next GetSignBytes call>")
+			return out
+		}
 		if vb != nil && bytes.Equal(vb, base) {
 			out = append(out, f.Name)
 		}
